@@ -60,7 +60,7 @@ def meek_s2_or_resolution(case, viol):
     if meek_s2(case, viol):
         return True
     sig = viol.get('sig', '')
-    if sig.startswith('count-raises'):
+    if sig.startswith(('count-raises', 'over-committed')):
         return meek_resolution(case, viol)
     if sig.startswith('kf-elected') and ' has keep factor 0 at ' in viol.get('detail', ''):
         # truncated to exactly 0 (never the F22 shape, a keep factor above 1): known only if more digits cure it
